@@ -42,7 +42,7 @@ MAKERS = {
     "quantized_hswish": {"bits": 6, "integer": 2},
 }
 NO_STE_ARG = ("quantized_linear", "quantized_hswish")
-WAYS = ["ctor", "update_before_build", "variable_update_after_build", "built_then_rebuilt"]
+WAYS = ["ctor", "update_before_build", "variable_update_after_build", "built_then_rebuilt", "traced_variable"]
 FAMILIES = ["dense_act", "conv_po2", "inline_activation", "rnn", "linear_act", "depthwise_hswish"]
 
 
@@ -145,6 +145,7 @@ def run_a(case, ctx):
     ctx.violation(dict(base, kind="factor_zero_is_not_the_unquantized_activation"),
                   "x=%r: q_0(x)=%r, surrogate=%r" % (float(x.flat[i]), float(u.flat[i]), float(s.flat[i])), None)
   q = None
+  state = {}
   for step_i, f in enumerate(case["factors"]):
     def produce():
       nonlocal q
@@ -167,11 +168,22 @@ def run_a(case, ctx):
             q.use_variables = True
           q.build(use_variables=True)
         q.update_qnoise_factor(f)
+      elif way == "traced_variable":
+        # the mode used during training: the quantizer is traced once inside a tf.function (first factor set
+        # before the build), later factors only reach the graph through the tf.Variable
+        if q is None:
+          q = mk(use_variables=True)
+          q.update_qnoise_factor(f)
+          qq = q
+          state["fn"] = tf.function(lambda t: qq(t))
+        else:
+          q.update_qnoise_factor(f)
+        return np.asarray(state["fn"](tf.constant(x))).astype(np.float64)
       return qenv.call(q, x).astype(np.float64)
     ok, o = ctx.call(base, produce)
     if not ok:
       return
-    if way in ("variable_update_after_build", "built_then_rebuilt") and not isinstance(q.qnoise_factor, tf.Variable):
+    if way in ("variable_update_after_build", "built_then_rebuilt", "traced_variable") and not isinstance(q.qnoise_factor, tf.Variable):
       ctx.violation(dict(base, kind="factor_not_variable_backed"), "qnoise_factor is %s" % type(q.qnoise_factor).__name__, None)
     ref = u + f * (v - u)
     tol = 4 * 2.0 ** -23 * np.maximum(1.0, np.abs(ref)) + 1e-7
